@@ -274,6 +274,30 @@ Definition handle (ts : list tok) : list tok :=
   | [] => [sym "ERR"; sym "empty"]
   end.
 
+(* Base/Proto.parse_line uses the quadratic [rev]; frames are thousands of characters, so lines are
+   split and hex tokens decoded with [rev_append] (same token language) *)
+Fixpoint fsplit (cs cur : list Z) (acc : list (list Z)) : list (list Z) :=
+  match cs with
+  | [] => rev_append (match cur with [] => acc | _ => rev_append cur [] :: acc end) []
+  | c :: r => if c =? 32 then fsplit r [] (match cur with [] => acc | _ => rev_append cur [] :: acc end)
+              else fsplit r (c :: cur) acc
+  end.
+Fixpoint fhex (cs : list Z) (acc : list Z) : option (list Z) :=
+  match cs with
+  | [] => Some (rev_append acc [])
+  | a :: b :: r => match hexval a, hexval b with
+                   | Some x, Some y => fhex r (16 * x + y :: acc)
+                   | _, _ => None
+                   end
+  | _ => None
+  end.
+Definition fparse_tok (w : list Z) : tok :=
+  match w with
+  | 120 :: r => match fhex r [] with Some bs => TBytes bs | None => TSym w end
+  | _ => parse_tok w
+  end.
+Definition fparse_line (cs : list Z) : list tok := map fparse_tok (fsplit cs [] []).
+
 Definition init_state : unit := tt.
-Definition step_line (s : unit) (line : list Z) : unit * list Z := (s, run_line handle line).
+Definition step_line (s : unit) (line : list Z) : unit * list Z := (s, print_line (handle (fparse_line line))).
 Extraction "../ocaml/gen/c11_model.ml" init_state step_line.
